@@ -233,6 +233,45 @@ def workspace_scenario(binary, files, open_rel, probes, timeout=30.0, pre_open=(
         shutil.rmtree(root, ignore_errors=True)
 
 
+def disk_vs_editor_scenario(binary):
+    """files exist on disk with OTHER contents than the editor sends: didOpen(main) as the first document of a package that is not loaded yet,
+    then didOpen(other), then an edit of main, then didOpen of a file in a second, nested package (its discovery reloads files from disk).
+    After every step the text the server analyses for every open document must be the editor's.  returns a list of problems"""
+    s = Session(binary)
+    probs = []
+    try:
+        disk = {'main.gleam': 'pub fn disk_main() { 1 }\n', 'other.gleam': 'pub fn disk_other() { 1 }\n'}
+        for n, t in disk.items():
+            open(os.path.join(s.root, 'src', n), 'w').write(t)
+        os.makedirs(os.path.join(s.root, 'libs', 'inner', 'src'), exist_ok=True)
+        open(os.path.join(s.root, 'libs', 'inner', 'gleam.toml'), 'w').write('name = "inner"\nversion = "0.1.0"\n')
+        open(os.path.join(s.root, 'libs', 'inner', 'src', 'inner.gleam'), 'w').write('pub fn disk_inner() { 1 }\n')
+        editor = {}
+
+        def check(step):
+            for n, want in editor.items():
+                got, raw = s.server_text(n)
+                if got != want:
+                    probs.append('%s: the server analyses %r for %s, the editor holds %r (on disk: %r)' % (step, got, n, want, disk.get(n)))
+        editor['main.gleam'] = 'pub fn editor_main() { 2 }\n'
+        s.notify('textDocument/didOpen', {'textDocument': {'uri': s.uri('main.gleam'), 'languageId': 'gleam', 'version': 1, 'text': editor['main.gleam']}})
+        check('after didOpen of the first document of a package (its file on disk has another text)')
+        editor['other.gleam'] = 'pub fn editor_other() { 3 }\n'
+        s.notify('textDocument/didOpen', {'textDocument': {'uri': s.uri('other.gleam'), 'languageId': 'gleam', 'version': 1, 'text': editor['other.gleam']}})
+        check('after didOpen of a second document of the package')
+        editor['main.gleam'] = 'pub fn editor_main() { 22 }\n'
+        s.notify('textDocument/didChange', {'textDocument': {'uri': s.uri('main.gleam'), 'version': 2}, 'contentChanges': [{'text': editor['main.gleam']}]})
+        check('after an edit')
+        inner_uri = 'file://%s/libs/inner/src/inner.gleam' % s.root
+        s.notify('textDocument/didOpen', {'textDocument': {'uri': inner_uri, 'languageId': 'gleam', 'version': 1, 'text': 'pub fn editor_inner() { 4 }\n'}})
+        check('after didOpen of a document of a nested package (a new package root is discovered and loaded)')
+        if not s.alive():
+            probs.append('the server died')
+        return probs
+    finally:
+        s.close()
+
+
 def drain(s, quiet=2.0, limit=20.0):
     """collect notifications until the server has been quiet for `quiet` seconds"""
     end = time.time() + limit; last = time.time()
